@@ -445,6 +445,8 @@ def statement():
         for l in lx:
             if l[0] == 'mark':
                 continue
+            if l[0] == 'lp':
+                break                     # statement starts with a parenthesis: no leading keyword
             if l[3].get('lead'):
                 lead = l[3]['lead']
             elif l[3].get('lead_cte'):
@@ -460,7 +462,10 @@ def statement():
                         break
             break
         return W('stmt', lx, type=lead or 'UNKNOWN')
-    return st.one_of(select(2), select(1), select(1), insert(), update(), delete(), create_table(), drop_alter(), cte()).map(wrap)
+    # a parenthesised query first: the statement starts with '(' (get_type() is UNKNOWN for it)
+    paren_led = st.tuples(select(0), st.sampled_from(SETOPS), select(1)).map(
+        lambda t: seq(W('paren', paren(t[0]), subquery=True), kw(t[1], clause=True), t[2]))
+    return st.one_of(select(2), select(1), select(1), insert(), update(), delete(), create_table(), drop_alter(), cte(), paren_led).map(wrap)
 
 
 @functools.lru_cache(maxsize=None)
